@@ -24,6 +24,7 @@
 #include <chrono>
 #include <cstdarg>
 #include <cerrno>
+#include <sstream>
 #include <poll.h>
 #include <sys/prctl.h>
 #include <sys/resource.h>
@@ -170,7 +171,7 @@ struct Coord {
   std::map<std::pair<int, std::pair<int, int>>, std::deque<std::shared_ptr<Msg>>> chan;  // (comm,(src,dst)) -> in flight
   FILE* log = nullptr; long t = 0; long max_steps = 5000000; int eager_pct = 50; long logbytes = 256; long idle_false = 0;
   std::string policy = "uniform"; int racer = 0; long livelock_k = 400000; long since_progress = 0; long n_deliver = 0, n_complete = 0, n_answer = 0, n_false = 0;
-  std::string verdict = "ok"; time_t t_start = time(nullptr); long wall_budget = 900; long immediate_run = 0, spin_k = 1500000;
+  std::string verdict = "ok"; time_t t_start = time(nullptr); long wall_budget = 900; long immediate_run = 0, spin_k = 1500000; std::map<long, long> deviate; long decision = 0;
 
   long log_written = 0, log_budget = 768L << 20;   // runaway handlers must not fill the disk
   void L(const char* fmt, ...) { if (!log) return; if (log_written > log_budget) { if (verdict == "ok") verdict = "log-budget"; return; }
@@ -352,7 +353,11 @@ struct Coord {
       if (acts.empty()) { verdict = "deadlock"; break; }
       if (only_false) { if (++falses_in_row > 256L * n) { verdict = "deadlock-spin"; break; } } else falses_in_row = 0;
       long tot = 0; for (auto& a : acts) { a.weight = weight(a); tot += a.weight; }
-      long pick = (long)rng.below(tot); size_t i = 0; for (; i < acts.size(); ++i) { if (pick < acts[i].weight) break; pick -= acts[i].weight; }
+      size_t i = 0;
+      { long pick = (long)rng.below(tot); for (; i < acts.size(); ++i) { if (pick < acts[i].weight) break; pick -= acts[i].weight; } }
+      // systematic (delay-bounded) exploration: at decision j deviate from the seeded choice by a positions
+      { auto dv = deviate.find(decision); if (dv != deviate.end()) { i = (i + (size_t)dv->second) % acts.size(); L("deviate decision=%ld by=%ld of=%zu", decision, dv->second, acts.size()); } }
+      ++decision;
       Act a = acts[i];
       if (a.kind == 0) { n_answer++; since_progress = 0; answer(a.r); pump(a.r); }
       else if (a.kind == 1) { n_false++; answer(a.r); pump(a.r); }
@@ -370,7 +375,8 @@ int main(int argc, char** argv) {
   C.rng.s = (e = getenv("SIMMPI_SEED")) ? strtoull(e, 0, 10) : 1; if ((e = getenv("SIMMPI_EAGER_PCT"))) C.eager_pct = atoi(e);
   if ((e = getenv("SIMMPI_MAX_STEPS"))) C.max_steps = atol(e); if ((e = getenv("SIMMPI_LOG_BYTES"))) C.logbytes = atol(e);
   if ((e = getenv("SIMMPI_LOG"))) C.log = fopen(e, "w");
-  if ((e = getenv("SIMMPI_POLICY"))) C.policy = e; if ((e = getenv("SIMMPI_WALL_S"))) C.wall_budget = atol(e); if ((e = getenv("SIMMPI_SPIN"))) C.spin_k = atol(e); if ((e = getenv("SIMMPI_MAX_LOG_MB"))) C.log_budget = atol(e) << 20; if ((e = getenv("SIMMPI_LIVELOCK"))) C.livelock_k = atol(e);
+  if ((e = getenv("SIMMPI_POLICY"))) C.policy = e; if ((e = getenv("SIMMPI_WALL_S"))) C.wall_budget = atol(e); if ((e = getenv("SIMMPI_SPIN"))) C.spin_k = atol(e);
+  if ((e = getenv("SIMMPI_DEVIATE"))) { std::string fs(e), tok; std::stringstream ss(fs); while (std::getline(ss, tok, ',')) { size_t c = tok.find(':'); if (c != std::string::npos) C.deviate[atol(tok.substr(0, c).c_str())] = atol(tok.substr(c + 1).c_str()); } } if ((e = getenv("SIMMPI_MAX_LOG_MB"))) C.log_budget = atol(e) << 20; if ((e = getenv("SIMMPI_LIVELOCK"))) C.livelock_k = atol(e);
   C.racer = (int)(C.rng.s % (uint64_t)C.n);
   signal(SIGPIPE, SIG_IGN);
   C.rk.resize(C.n); C.comms[MPI_COMM_WORLD].members.resize(C.n); C.comms[MPI_COMM_WORLD].seq.assign(C.n, 0);
